@@ -215,8 +215,9 @@ func (r *TimeRange) IsInSameRange(t1, t2 time.Time) bool {
 		}
 	}
 
-	sessionEnd := time.Date(t1.Year(), t1.Month(), t1.Day(), r.endTime.hour, r.endTime.minute, r.endTime.second, 0, r.loc)
-	sessionEnd = sessionEnd.AddDate(0, 0, dayOffset)
+	// Build the end on its own calendar day: the end time of day may not exist on t1's day
+	// (daylight saving gap), and a time normalised there would carry its shift along.
+	sessionEnd := time.Date(t1.Year(), t1.Month(), t1.Day()+dayOffset, r.endTime.hour, r.endTime.minute, r.endTime.second, 0, r.loc)
 
 	return t2.Before(sessionEnd)
 }
